@@ -9,7 +9,7 @@ Inductive cside :=
 | CWriting (written : nat)        (* bytes of the request handed to the stream so far *)
 | CFinished                       (* everything written, FIN sent, waiting for the response *)
 | CGot (r : res response)         (* the call returned *)
-| CAbandoned.                     (* the caller dropped the call *)
+| CAbandoned (written : nat).     (* the caller dropped the call, having handed that many bytes to the stream *)
 
 Inductive sside :=
 | SWait                           (* reading the request *)
@@ -44,13 +44,15 @@ Section WithHandler.
     match cs st with
     | CWriting n => n
     | CFinished | CGot _ => length (wire st)
-    | CAbandoned => delivered st   (* whatever arrived before the reset *)
+    | CAbandoned n => n            (* bytes in flight at the reset may still arrive (seen in the implementation's traces) or not *)
     end.
 
   Definition set_cs (st : stream) (c : cside) : stream :=
     mkStream (wire st) c (ss st) (delivered st) (resp_wire st) (invocations st) (reset st) (stopped st).
   Definition set_ss (st : stream) (s : sside) : stream :=
     mkStream (wire st) (cs st) s (delivered st) (resp_wire st) (invocations st) (reset st) (stopped st).
+
+  Definition abandoned (st : stream) : bool := match cs st with CAbandoned _ => true | _ => false end.
 
   Definition closed (s : sside) : bool :=
     match s with SDone | SFailed | SDropped => true | _ => false end.
@@ -119,7 +121,7 @@ Section WithHandler.
     | Abandon =>
         match cs st with
         | CWriting _ | CFinished =>
-            Some (mkStream (wire st) CAbandoned (ss st) (delivered st) (resp_wire st)
+            Some (mkStream (wire st) (CAbandoned (written st)) (ss st) (delivered st) (resp_wire st)
                            (invocations st) true true)
         | _ => None
         end
